@@ -10,6 +10,7 @@ import (
 	"fmt"
 	"hash/fnv"
 	"net"
+	"os"
 	"sort"
 	"strings"
 	"sync"
@@ -36,6 +37,7 @@ type gor struct {
 type parked struct {
 	g     *gor
 	label string
+	key   interface{}
 	wake  chan struct{}
 }
 
@@ -54,20 +56,36 @@ type Policy struct {
 	HoldNum int
 }
 
+// classes of the keyed yields in /repo's subscription path
+var SenderClasses = map[string]bool{"sub.reader.send": true, "sub.reader.done": true, "sub.close.send": true}
+
+const (
+	ReceiverSelect = "sub.listen.select"
+	ReceiverGone   = "sub.listen.defer"
+)
+
+var debugTrace = os.Getenv("SIM_DEBUG_TRACE") != ""
+
 type Sim struct {
 	T      *tape.Tape
 	Policy Policy
 
-	mu       sync.Mutex
-	byGoid   map[uint64]*gor
-	tokens   map[uint64]string
-	nextTok  uint64
-	parked   map[string]*parked
-	actions  map[string]*Action
-	alive    map[string]int
-	labelCnt map[string]int
-	anon     int
-	down     bool
+	mu          sync.Mutex
+	byGoid      map[uint64]*gor
+	tokens      map[uint64]string
+	nextTok     uint64
+	parked      map[string]*parked
+	actions     map[string]*Action
+	alive       map[string]int
+	labelCnt    map[string]int
+	pending     map[string]int
+	outstanding map[interface{}]bool
+	toClear     map[interface{}]bool
+	deadKey     map[interface{}]bool
+	Held        int
+	named       map[uint64]bool
+	anon        int
+	down        bool
 
 	Steps     int
 	Forks     int
@@ -86,17 +104,22 @@ type Sim struct {
 
 func New(t *tape.Tape) *Sim {
 	return &Sim{
-		T:         t,
-		Policy:    Policy{Deviation: 16},
-		byGoid:    map[uint64]*gor{},
-		tokens:    map[uint64]string{},
-		parked:    map[string]*parked{},
-		actions:   map[string]*Action{},
-		alive:     map[string]int{},
-		labelCnt:  map[string]int{},
-		ClassFire: map[string]int{},
-		TraceCap:  400,
-		traceHash: 1469598103934665603,
+		T:           t,
+		Policy:      Policy{Deviation: 16},
+		byGoid:      map[uint64]*gor{},
+		tokens:      map[uint64]string{},
+		parked:      map[string]*parked{},
+		actions:     map[string]*Action{},
+		alive:       map[string]int{},
+		labelCnt:    map[string]int{},
+		pending:     map[string]int{},
+		outstanding: map[interface{}]bool{},
+		toClear:     map[interface{}]bool{},
+		deadKey:     map[interface{}]bool{},
+		named:       map[uint64]bool{},
+		ClassFire:   map[string]int{},
+		TraceCap:    400,
+		traceHash:   1469598103934665603,
 	}
 }
 
@@ -138,6 +161,24 @@ func (s *Sim) Fork() uint64 {
 	return s.nextTok
 }
 
+// ForkNamed announces a goroutine whose identity is the given label (made unique, in fork
+// order, against goroutines alive or announced under the same label).
+func (s *Sim) ForkNamed(label string) uint64 {
+	s.mu.Lock()
+	defer s.mu.Unlock()
+	name := label
+	if s.alive[name] > 0 || s.pending[name] > 0 {
+		s.labelCnt[label]++
+		name = fmt.Sprintf("%s~%d", label, s.labelCnt[label])
+	}
+	s.pending[name]++
+	s.nextTok++
+	s.tokens[s.nextTok] = name
+	s.named[s.nextTok] = true
+	s.Forks++
+	return s.nextTok
+}
+
 func (s *Sim) Start(tok uint64) {
 	s.mu.Lock()
 	id, ok := s.tokens[tok]
@@ -146,7 +187,17 @@ func (s *Sim) Start(tok uint64) {
 		id = fmt.Sprintf("untok%d", s.anon)
 	}
 	delete(s.tokens, tok)
-	g := s.bind(id)
+	var g *gor
+	if s.named[tok] {
+		// unique already
+		delete(s.named, tok)
+		s.pending[id]--
+		g = &gor{id: id}
+		s.byGoid[goid()] = g
+		s.alive[id]++
+	} else {
+		g = s.bind(id)
+	}
 	s.mu.Unlock()
 	s.park(g, "start")
 }
@@ -183,6 +234,22 @@ func (s *Sim) Yield(label string) {
 	}
 	s.mu.Unlock()
 	s.park(g, label)
+}
+
+// YieldOn is Yield with the shared object (a channel) the goroutine is about to use. A Go
+// select with two ready cases chooses at random; to keep runs replayable the driver never lets
+// two senders be pending on one listener: senders (SenderClasses) with a key that has an
+// outstanding sender are not enabled until the receiver (ReceiverClasses, same key) has passed
+// its select once more.
+func (s *Sim) YieldOn(label string, key interface{}) {
+	s.mu.Lock()
+	g := s.cur()
+	if g == nil {
+		s.Forks++
+		g = s.bind("y:" + label)
+	}
+	s.mu.Unlock()
+	s.parkKey(g, label, key)
 }
 
 func (s *Sim) Order(n int, key func(i int) string) []int {
@@ -239,13 +306,15 @@ func (s *Sim) Go(id string, fn func()) {
 // Park is a yield point for harness code running on a registered goroutine.
 func (s *Sim) Park(label string) { s.Yield(label) }
 
-func (s *Sim) park(g *gor, label string) {
+func (s *Sim) park(g *gor, label string) { s.parkKey(g, label, nil) }
+
+func (s *Sim) parkKey(g *gor, label string, key interface{}) {
 	s.mu.Lock()
 	if s.down {
 		s.mu.Unlock()
 		return
 	}
-	p := &parked{g: g, label: label, wake: make(chan struct{})}
+	p := &parked{g: g, label: label, key: key, wake: make(chan struct{})}
 	if old := s.parked[g.id]; old != nil {
 		s.Anomalies = append(s.Anomalies, "double park of "+g.id)
 	}
@@ -293,7 +362,15 @@ type enabledItem struct {
 }
 
 func (s *Sim) enabled(now time.Time) (items []enabledItem, nextAt time.Time) {
+	for k := range s.toClear {
+		delete(s.outstanding, k)
+		delete(s.toClear, k)
+	}
 	for id, p := range s.parked {
+		if p.key != nil && SenderClasses[p.label] && s.outstanding[p.key] && !s.deadKey[p.key] {
+			s.Held++
+			continue
+		}
 		items = append(items, enabledItem{id: "g:" + id + "@" + p.label, class: p.label, p: p})
 	}
 	for id, a := range s.actions {
@@ -398,8 +475,26 @@ func (s *Sim) Step() (did bool, nextAt time.Time) {
 	it := items[pick]
 	s.Steps++
 	s.ClassFire[it.class]++
-	s.note(fmt.Sprintf("%d/%d %s", pick, len(items), it.id))
+	if debugTrace {
+		var ids []string
+		for _, x := range items {
+			ids = append(ids, x.id)
+		}
+		s.note(fmt.Sprintf("%d/%d %s  @%s  ENABLED=%v", pick, len(items), it.id, time.Now().Format("15:04:05.000000"), ids))
+	} else {
+		s.note(fmt.Sprintf("%d/%d %s", pick, len(items), it.id))
+	}
 	if it.p != nil {
+		if k := it.p.key; k != nil {
+			switch {
+			case SenderClasses[it.p.label]:
+				s.outstanding[k] = true
+			case it.p.label == ReceiverSelect:
+				s.toClear[k] = true
+			case it.p.label == ReceiverGone:
+				s.deadKey[k] = true
+			}
+		}
 		delete(s.parked, it.p.g.id)
 		s.mu.Unlock()
 		close(it.p.wake)
